@@ -117,7 +117,9 @@ func (c *Cache[V]) Cleanup() {
 	// This is more efficient than removing keys one-by-one
 	// However, this could lead to a race condition where keys that are updated after ForEach ends are deleted nevertheless.
 	// This is considered acceptable in this case as this is just a cache.
-	keys := make([]string, 0, c.m.Len())
+	// No capacity hint from c.m.Len(): the map's item counter can transiently wrap around while
+	// Set and Delete run concurrently, and make() then panics with "cap out of range".
+	var keys []string
 	c.m.ForEach(func(k string, v cacheEntry[V]) bool {
 		if v.exp.Before(now) {
 			keys = append(keys, k)
@@ -135,7 +137,8 @@ func (c *Cache[V]) Reset() {
 	// This is more efficient than removing keys one-by-one
 	// However, this could lead to a race condition where keys that are updated after ForEach ends are deleted nevertheless.
 	// This is considered acceptable in this case as this is just a cache.
-	keys := make([]string, 0, c.m.Len())
+	// (no capacity hint from c.m.Len(), see Cleanup)
+	var keys []string
 	c.m.ForEach(func(k string, v cacheEntry[V]) bool {
 		keys = append(keys, k)
 		return true
